@@ -234,6 +234,30 @@ NonuniformAxis(g, mn, mx, L, R) ==
   IN  Axis(IF ~IsNoneQ(mn) THEN mn ELSE IF L \/ n = 1 THEN g[1] ELSE QSub(g[1], QHalf(QSub(g[2], g[1]))),
            IF ~IsNoneQ(mx) THEN mx ELSE IF R \/ n = 1 THEN g[n] ELSE QAdd(g[n], QHalf(QSub(g[n], g[n - 1]))), g)
 
+(* ------------------------- history-free reference answers ---------------- *)
+\* what a partition answers to the four query kinds of the history machine (PartHist) - a function of its own
+\* defining data (limits, nodes) only
+Queries == {"lite", "sides", "index", "sub"}
+LiteOf(part) == [k \in 1..Len(part) |-> [axis |-> part[k], d |-> DerivedOf(part[k])]]
+SubOf(part)  == IF NN(part[1]) > 1 THEN GetItem(part, ITuple(<<ISlice(1, NONE, NONE)>>)) ELSE part
+Ref(part, q) ==
+  CASE q = "lite"  -> LiteOf(part)
+    [] q = "sides" -> [k \in 1..Len(part) |-> IF IsUniform(part[k]) THEN CellSide(part[k]) ELSE NoneQ]
+    [] q = "index" -> [k \in 1..Len(part) |-> [j \in 1..NN(part[k]) |-> Index0(part[k], part[k].nodes[j])]]
+    [] q = "sub"   -> LiteOf(SubOf(part))
+RefAll(part) == [lite |-> Ref(part, "lite"), sides |-> Ref(part, "sides"), index |-> Ref(part, "index"), sub |-> Ref(part, "sub")]
+
+\* equality of a "lite" answer with the reference; the size of the single cell of a one-node axis is left out
+\* (documented 0.0 convention of cell_sizes_vecs, open finding)
+LiteSame(ref, obs) ==
+  /\ Len(ref) = Len(obs)
+  /\ \A k \in 1..Len(ref) :
+        /\ obs[k].axis = ref[k].axis
+        /\ \A f \in {"bdry", "sizes", "frac", "nob", "uniform", "side", "extent"} :
+              \/ (f = "sizes" /\ NN(ref[k].axis) = 1 /\ ~Degenerate(ref[k].axis))
+              \/ obs[k].d[f] = ref[k].d[f]
+AnsSame(q, ref, obs) == IF q \in {"lite", "sub"} THEN LiteSame(ref, obs) ELSE ref = obs
+
 (* ------------------------- the laws of C14 ------------------------------ *)
 \* (these are the clauses of the property statement; TLC checks that the definitions above satisfy them)
 LawBdryIncreasing(ax) == IF Degenerate(ax) THEN WeakInc(Bdry(ax)) ELSE StrictInc(Bdry(ax))
